@@ -397,6 +397,7 @@ void mpq_EGlpNumSet_mpf (mpq_t var,
 	if (mpf_cmp_ui (flt, (unsigned long int)0) == 0)
 	{
 		mpq_set_ui (var, (unsigned long int)0, (unsigned long int)1);
+		mpf_clear(__lpnum__);
 		return;
 	}
 	/* if not, then we have some work to do */
